@@ -4,6 +4,7 @@ import Proofs.Rules
 import Proofs.MatchSound
 import Proofs.MatchExample
 import Proofs.Mirror
+import Proofs.NetSound
 /-! Property theorems of C01 live in the imported files; the list audited on every run is in harness/props/c01.py.
 The per-program theorem is `Facto.scalar_end_to_end` (Proofs/MatchSound.lean); `Proofs/MatchExample.lean`
 instantiates it on a concrete circuit (non-vacuity). -/
